@@ -1,0 +1,13 @@
+//go:build verif
+
+package codes
+
+// Contracts for the deductive verifier in /verif (govc). Comment-only file: adds no code.
+
+// Acceptable is false exactly for DeadlineExceeded(4), Internal(13), Unavailable(14), DataLoss(15), Unimplemented(12).
+//@ func Acceptable
+//@   prop C01, C14
+//@   let code = ret(status.Code)
+//@   ensures [benign-set] result == !(code == 4 || code == 13 || code == 14 || code == 15 || code == 12)
+//@   ensures [nil-ok] err == nil ==> result
+//@   modifies nothing
